@@ -244,7 +244,7 @@ Proof.
   rewrite get_set_same in Hag.
   assert (Hr : inv_rel d d') by (apply crash_invisible; [reflexivity | exact Hd | exact Hnd]).
   pose proof (ir_inv _ _ Hr) as Hd'. pose proof (seqs_nonneg_sub _ _ Hseq Hr) as Hseq'.
-  cbn [cf_stale_prev cf_fixed orb] in Hag.
+  unfold stale_matters in Hag. cbn [cf_stale_prev cf_fixed andb orb] in Hag.
   repeat (apply andb_true_iff in Hag; destruct Hag as [Hag ?]).
   repeat match goal with H : _ && _ = true |- _ => apply andb_true_iff in H; destruct H end.
   rename Hag into Bfull.
@@ -256,7 +256,7 @@ Proof.
   match goal with H : oents_eqb (osort (m_listing d')) (osort (ro_listing after)) = true |- _ => rename H into Alist end.
   match goal with H : forallb (get_agrees (set_ds st ds d') ds) (ro_gets after) = true |- _ => rename H into Agets end.
   match goal with H : negb (ro_bad after) = true |- _ => rename H into Abad end.
-  match goal with H : rels_same before after = true |- _ => rename H into Hrels end.
+  match goal with H : unmodelled_same before after = true |- _ => rename H into Hrels end.
   match goal with H : Bool.eqb crashing o_cr = true |- _ => rename H into Hcr end.
   apply eqb_prop in Hcr.
   cbn [spec_op_ok]. rewrite Abad. cbn [andb].
